@@ -878,6 +878,13 @@ func (as *AbacoSource) Sample() error {
 		as.distributePackets(results.allpackets, now)
 	}
 
+	// All producers are running now. If this Start is going to fail, they have to be stopped again:
+	// a UDP socket left bound makes every later Start fail with "address already in use".
+	if as.nchan == 0 {
+		as.closeDevices()
+		return fmt.Errorf("no Abaco data packets arrived within %v", timeout)
+	}
+
 	// Verify that no channel # appears in 2 groups.
 	known := make(map[int]bool)
 	for _, g := range as.groups {
@@ -885,6 +892,7 @@ func (as *AbacoSource) Sample() error {
 		cend := cinit + g.index.Nchan
 		for cnum := cinit; cnum < cend; cnum++ {
 			if known[cnum] {
+				as.closeDevices()
 				return fmt.Errorf("channel group %v sees channel %d, which was in another group", g.index, cnum)
 			}
 			known[cnum] = true
